@@ -122,9 +122,13 @@ func perturb(t *rapid.T, w wm.W) wm.W {
 			out.I = 0
 		}
 	case wm.KDouble:
-		out.F = 0x4010000000000000
-		if w.F == out.F {
+		switch {
+		case w.F == 0 || w.F == 0x8000000000000000:
+			out.F = w.F ^ 0x8000000000000000 // +0 <-> -0: equal values, different bits
+		case w.F == 0x4010000000000000:
 			out.F = 0
+		default:
+			out.F = 0x4010000000000000
 		}
 	case wm.KBinary:
 		out.Bin = append(append([]byte{}, w.Bin...), 1)
@@ -147,7 +151,11 @@ func perturb(t *rapid.T, w wm.W) wm.W {
 			}
 		}
 	case wm.KMap:
-		if len(w.Pairs) > 0 {
+		if len(w.Pairs) > 0 && w.KK < wm.KStruct && rapid.Bool().Draw(t, "rekey") {
+			// same value under another key
+			out.Pairs = append([]wm.Pair{}, w.Pairs...)
+			out.Pairs[0] = wm.Pair{K: perturb(t, w.Pairs[0].K), V: w.Pairs[0].V}
+		} else if len(w.Pairs) > 0 {
 			out.Pairs = append([]wm.Pair{}, w.Pairs[1:]...)
 		} else {
 			out.VK = wm.KBool
